@@ -10,7 +10,8 @@ def main():
     vf.build("hooks")
     c.model("Abi.tla", "AbiSmall.cfg" if c.thorough else "AbiSmallQuick.cfg")
     abidiff = vf.tool("hooks", "abidiff")
-    cases = campaign.gen_pairs(c, 3000 if c.thorough else 300, MutCats='{"breaking", "harmless", "unlisted"}', MinMuts=1, MaxMuts=3)
+    cases = campaign.gen_pairs(c, 3000 if c.thorough else 220, MutCats='{"breaking", "harmless", "unlisted"}', MinMuts=1, MaxMuts=3)
+    cases += campaign.gen_pairs(c, 1500 if c.thorough else 100, name="gencxx", Lang='"cxx"', MutCats='{"breaking", "harmless", "unlisted"}', MinMuts=1, MaxMuts=3)
     comps = ["gcc", "clang"] if c.thorough else ["gcc"]
 
     def one(job):
